@@ -92,3 +92,14 @@ package multiplex
 //@   loop 1 invariant 0 <= size && size <= len(data) && (len(data) > 0 ==> size > 0)
 //@   loop 1 invariant ncalls("net.Conn.Write") >= old(ncalls("net.Conn.Write")) && (off(data) > off(buf) ==> ncalls("net.Conn.Write") >= old(ncalls("net.Conn.Write")) + 2)
 //@   loop 1 decreases len(data)
+
+//@ func mux.Open
+//@   props C10 C11
+//@   requires wfMux(m) && !held(m.connLock)
+//@   modifies lock(m.connLock), mapkey(m.conns, id)
+//@   ensures [reserved] id == 0 ==> result.1 != nil && !held(m.connLock)
+//@   ensures [same]     id != 0 && old(has(m.conns, id)) ==> result.1 == nil && ifaceval(result.0, "*conn") == old(m.conns[id]) && m.conns[id] == old(m.conns[id])
+//@   ensures [new]      id != 0 && !old(has(m.conns, id)) ==> result.1 == nil && has(m.conns, id) && ifaceval(result.0, "*conn") == m.conns[id] && fresh(m.conns[id])
+//@                      && m.conns[id].id == id && m.conns[id].mux == m && chancap(m.conns[id].readC) == m.qlen && chancap(m.conns[id].doneC) == 1
+//@                      && !chanclosed(m.conns[id].doneC) && !done(m.conns[id].closeOnce) && m.conns[id].doneC != nil && m.conns[id].readC != nil
+//@   ensures [lock]     !held(m.connLock)
